@@ -42,6 +42,16 @@ type Case struct {
 	Ops      []Upload `json:"ops"`
 	CatchUp  bool     `json:"catch_up"`
 	Kind     string   `json:"schedule_kind"`
+	// Late: index of the track that starts after the others are done (late-track: init in time, media late;
+	// late-init: also its init segment arrives only then, i.e. after the channel has started); -1 if none
+	Late int `json:"late_track"`
+	// InitAt (late-init): the late track's init segment is uploaded before the operation with this index (its media
+	// still come after all other tracks are done)
+	InitAt int `json:"late_init_at,omitempty"`
+	// Irregular: from the fourth number on every fourth segment (number-Base = 3 mod 4) is half as long; decode times are
+	// cumulative, so the timeline has runs of durations A..A B A..A B ...
+	Irregular bool   `json:"irregular_durations,omitempty"`
+	Base      uint32 `json:"base_number"`
 }
 
 const chName = "ch1"
@@ -62,7 +72,19 @@ func genCase(t *rapid.T) Case {
 	T := len(c.Tracks)
 	M := rapid.IntRange(1, 12).Draw(t, "M")
 	base := uint32(rapid.SampledFrom([]int{100, 5, 1000000}).Draw(t, "base")) + uint32(c.StartNr)
-	c.Kind = rapid.SampledFrom([]string{"in-order", "in-order", "gaps", "duplicates", "shuffled", "late-track"}).Draw(t, "kind")
+	c.Base = base
+	// (renumbered channels and text tracks derive numbers / times from a constant master duration: regular durations only)
+	hasText := false
+	for _, tr := range c.Tracks {
+		hasText = hasText || tr.Kind == "text"
+	}
+	c.Irregular = rapid.IntRange(0, 2).Draw(t, "irregular") == 0 && c.StartNr == 0 && !hasText
+	c.Kind = rapid.SampledFrom([]string{"in-order", "in-order", "gaps", "duplicates", "shuffled", "late-track", "late-init"}).Draw(t, "kind")
+	if c.Kind != "in-order" {
+		// the receiver derives numbers from times with the duration of the first two master segments; only a channel that
+		// starts with the regular first two segments keeps the uploaded numbering when later segments are shorter
+		c.Irregular = false
+	}
 	per := make([][]uint32, T)
 	for ti := 0; ti < T; ti++ {
 		for k := 0; k < M; k++ {
@@ -88,9 +110,10 @@ func genCase(t *rapid.T) Case {
 	}
 	// the interleaving: a merge of the per-track sequences drawn step by step; "late-track": one track starts after the others are done
 	late := -1
-	if c.Kind == "late-track" && T > 1 {
+	if (c.Kind == "late-track" || c.Kind == "late-init") && T > 1 {
 		late = rapid.IntRange(1, T-1).Draw(t, "late")
 	}
+	c.Late = late
 	idx := make([]int, T)
 	for {
 		var avail []int
@@ -110,6 +133,9 @@ func genCase(t *rapid.T) Case {
 		ti := rapid.SampledFrom(avail).Draw(t, "next")
 		c.Ops = append(c.Ops, Upload{ti, per[ti][idx[ti]]})
 		idx[ti]++
+	}
+	if c.Kind == "late-init" && len(c.Ops) > 0 {
+		c.InitAt = rapid.IntRange(0, len(c.Ops)-1).Draw(t, "initat")
 	}
 	return c
 }
@@ -182,13 +208,25 @@ func checkCase(c Case, storage string) (*hx.Violation, info) {
 		}
 		return fmt.Sprintf("/%s/%s/%s%s", chName, tr.Name, name, tk.Ext)
 	}
-	for _, tr := range c.Tracks {
+	registered := map[int]bool{}
+	sendInit := func(ti int) *hx.Violation {
+		tr := c.Tracks[ti]
 		init, err := rx.Init(tr.Kind)
 		if err != nil {
-			return hx.V("harness", "%v", err), inf
+			return hx.V("harness", "%v", err)
 		}
 		if code := r.Upload("PUT", urlFor(tr, "init"), init, nil, true); code != 200 {
-			return hx.V("init-refused", "init of %s -> %d", tr.Name, code), inf
+			return hx.V("init-refused", "init of %s -> %d", tr.Name, code)
+		}
+		registered[ti] = true
+		return nil
+	}
+	for ti := range c.Tracks {
+		if c.Kind == "late-init" && ti == c.Late {
+			continue
+		}
+		if v := sendInit(ti); v != nil {
+			return v, inf
 		}
 	}
 	// "the MPD file is always a complete document" also for a reader that does not wait for the receiver: a poller reads the
@@ -239,7 +277,22 @@ func checkCase(c Case, storage string) (*hx.Violation, info) {
 		tr := c.Tracks[op.Track]
 		tk := rx.Kinds[tr.Kind]
 		dur := durFor(tr.Kind, c.DurTicks)
-		body, err := rx.MediaSeg(tr.Kind, op.Seq, uint64(op.Seq)*uint64(dur), dur, byte(op.Track+1), i%2 == 0)
+		dts := uint64(op.Seq) * uint64(dur)
+		if c.Irregular && op.Seq >= c.Base {
+			k := uint64(op.Seq - c.Base)
+			short := (k + 0) / 4 // number of short segments among Base..Seq-1: those with index 3, 7, 11, ... < k
+			if k%4 == 3 {
+				dur /= 2
+			}
+			full := uint64(durFor(tr.Kind, c.DurTicks))
+			dts = uint64(c.Base)*full + (k-short)*full + short*(full/2)
+		}
+		if !registered[op.Track] {
+			if v := sendInit(op.Track); v != nil {
+				return v
+			}
+		}
+		body, err := rx.MediaSeg(tr.Kind, op.Seq, dts, dur, byte(op.Track+1), i%2 == 0)
 		if err != nil {
 			return hx.V("harness", "%v", err)
 		}
@@ -273,8 +326,8 @@ func checkCase(c Case, storage string) (*hx.Violation, info) {
 		if !ok {
 			return hx.V("harness", "no state")
 		}
-		if len(st.Tracks) != len(c.Tracks) {
-			return hx.V("tracks-registered", "%s step %d: %d tracks registered, %d uploaded an init segment", phase, i, len(st.Tracks), len(c.Tracks))
+		if len(st.Tracks) != len(registered) {
+			return hx.V("tracks-registered", "%s step %d: %d tracks registered, %d uploaded an init segment", phase, i, len(st.Tracks), len(registered))
 		}
 		// (a) the accepted upload is stored under track/<seq> with the uploaded content
 		if code == 200 {
@@ -292,7 +345,7 @@ func checkCase(c Case, storage string) (*hx.Violation, info) {
 				if err != nil {
 					return hx.V("stored-unparsable", "%s: %v", p, err)
 				}
-				wantT := uint64(op.Seq) * uint64(dur) * uint64(tk.OutScale) / uint64(tk.Timescale)
+				wantT := dts * uint64(tk.OutScale) / uint64(tk.Timescale)
 				// text tracks are rescaled and renumbered channels (startNr != 0) re-encoded on purpose: the decode time must be
 				// the uploaded one (rescaled) and the sequence number the uploaded or the renumbered one
 				if (int64(sf.seq) != seqOut && sf.seq != op.Seq) || sf.tfdt != wantT {
@@ -388,8 +441,17 @@ func checkCase(c Case, storage string) (*hx.Violation, info) {
 		for _, as := range m.Periods[0].AS {
 			nReps += len(as.Reps)
 		}
-		if nReps != len(c.Tracks) {
-			return hx.V("mpd-missing-track", "%s step %d: MPD lists %d representations, the channel has %d tracks", phase, i, nReps, len(c.Tracks))
+		// (a document published before a late track registered stays as it is until a number is complete for all tracks again)
+		lateInMPD := false
+		if c.Kind == "late-init" && c.Late >= 0 {
+			for _, as := range m.Periods[0].AS {
+				for _, rp := range as.Reps {
+					lateInMPD = lateInMPD || rp.ID == c.Tracks[c.Late].Name
+				}
+			}
+		}
+		if staleBeforeLate := c.Kind == "late-init" && c.Late >= 0 && registered[c.Late] && !lateInMPD && nReps == len(registered)-1; nReps != len(registered) && !staleBeforeLate {
+			return hx.V("mpd-missing-track", "%s step %d: MPD lists %d representations, the channel has %d tracks", phase, i, nReps, len(registered))
 		}
 		// (c) the newest listed number never decreases
 		if last < prevNewest {
@@ -423,6 +485,11 @@ func checkCase(c Case, storage string) (*hx.Violation, info) {
 		return nil
 	}
 	for i, op := range c.Ops {
+		if c.Kind == "late-init" && c.Late >= 0 && i == c.InitAt && !registered[c.Late] {
+			if v := sendInit(c.Late); v != nil {
+				return v, inf
+			}
+		}
 		if v := step(i, op, "schedule"); v != nil {
 			return v, inf
 		}
